@@ -266,6 +266,11 @@ struct Lib {
     // the 1-thread run makes of it (terminate on the tree as given), every other thread count must do the same - and not hang
     if (r.chance(0.06)) p.bad_frame = 1 + (long)r.below((uint64_t)p.F);
     else if (r.chance(0.06)) p.bad_eval = 1 + (long)r.below((uint64_t)p.F);
+#if defined(SIM_SAN)
+    // ASan's stack poisoning does not survive an exception that unwinds a ucontext coroutine (false stack-use-after-scope
+    // reports): the throwing faults are injected in the plain configuration only
+    p.bad_frame = p.bad_eval = -1;
+#endif
     p.pick_strategy(r);
     return p;
   }
